@@ -1,20 +1,22 @@
 """C02, tensor-network decoders' recovery construction: correspondence of
-  Planar{MPS,RMPS}Decoder.sample_recovery / RotatedPlanar{MPS,RMPS}Decoder.sample_recovery and of what `decode` of the
-  four decoders returns
-with the Gallina models of Decoders/SampleRecovery.v (engine build/qmodel_samp), whose theorems
+  Planar{MPS,RMPS}Decoder.sample_recovery / RotatedPlanar{MPS,RMPS}Decoder.sample_recovery /
+  Color666MPSDecoder.sample_recovery and of what `decode` of the five decoders returns
+with the Gallina models of Decoders/SampleRecovery.v and Decoders/SampleRecoveryColor.v (engine build/qmodel_samp),
+whose theorems
   planar_sample_syndrome_all, planar_mps_decode_syndrome_all        (all rows, cols >= 2)
   rotplanar_sample_syndrome_all, rotplanar_mps_decode_syndrome_all  (all rows, cols >= 3)
+  color_sample_syndrome_all, color_mps_decode_syndrome_all          (all odd sizes >= 3)
 say: for EVERY bit vector of syndrome length, every iteration order of the set of flagged plaquettes and every one of
 the four cosets the contraction may prefer, the returned operator has exactly that syndrome.
 
 run_extra(ctx):
   (1) the models' stabilizer matrices are the implementation's (row order included);
-  (2) sample_recovery(code, syndrome).to_bsf() of each of the four classes = the model's sample, on empty / all-ones /
+  (2) sample_recovery(code, syndrome).to_bsf() of each of the five classes = the model's sample, on empty / all-ones /
       every unit / dense random / sparse random / error-reachable syndromes of many sizes (minimal, non-square, odd/even);
   (3) the property evaluated directly on the implementation: bsp(recovery, stabilizers.T) == syndrome
       (paulitools.bsp and an independent numpy symplectic product) -> ctx.violation('sample-recovery-syndrome', ...);
   (4) the model's sample does not depend on the iteration order (requests in a shuffled order);
-  (5) decode() of the four decoders on small sizes returns sample xor one of {I, X, XZ, Z}-logical: the result must be
+  (5) decode() of the five decoders on small sizes returns sample xor one of {I, X, XZ, Z}-logical: the result must be
       one of the model's four `decode` answers, and must reproduce the syndrome -> ctx.violation('mps-decode-syndrome', ...);
   (6) an in-kernel shard re-checks a sample of (2) and the syndrome of the model's answer by vm_compute."""
 import numpy as np
@@ -27,7 +29,10 @@ PLANAR_SIZES_T = [(9, 6), (10, 3), (6, 11), (12, 12), (2, 16), (15, 4)]
 ROT_SIZES_Q = [(3, 3), (3, 4), (4, 3), (4, 4), (3, 5), (5, 3), (5, 5), (4, 6), (6, 5), (7, 7), (3, 8), (8, 3),
                (3, 11), (8, 8)]
 ROT_SIZES_T = [(11, 3), (9, 6), (6, 9), (10, 11), (12, 12), (3, 16), (15, 4)]
+COLOR_SIZES_Q = [(3,), (5,), (7,), (9,), (11,)]
+COLOR_SIZES_T = [(13,), (15,), (17,), (21,)]
 COSETS = 'IXYZ'
+CODE_NAME = {'planar': 'planar', 'rotplanar': 'rotatedplanar', 'color': 'color666'}
 
 
 def _bsp_independent(rec, stabs):
@@ -76,6 +81,7 @@ def run_extra(ctx):
     from qecsim import paulitools as pt
     from qecsim.models.planar import PlanarCode, PlanarMPSDecoder, PlanarRMPSDecoder
     from qecsim.models.rotatedplanar import RotatedPlanarCode, RotatedPlanarMPSDecoder, RotatedPlanarRMPSDecoder
+    from qecsim.models.color import Color666Code, Color666MPSDecoder
     from harness import decoder_zoo as zoo
     logging.getLogger('qecsim').setLevel(logging.CRITICAL)
     rng = ctx.rng
@@ -84,7 +90,11 @@ def run_extra(ctx):
                    PLANAR_SIZES_Q + ([] if ctx.quick else PLANAR_SIZES_T)),
         'rotplanar': (RotatedPlanarCode, (RotatedPlanarMPSDecoder, RotatedPlanarRMPSDecoder), 'r',
                       ROT_SIZES_Q + ([] if ctx.quick else ROT_SIZES_T)),
+        'color': (Color666Code, (Color666MPSDecoder,), 'c', COLOR_SIZES_Q + ([] if ctx.quick else COLOR_SIZES_T)),
     }
+
+    def szs(sz):
+        return ' '.join(str(v) for v in sz)
     req, cases = [], []
 
     # ---- (1)-(4): sample_recovery ----
@@ -95,7 +105,7 @@ def run_extra(ctx):
             S = code.stabilizers
             m = S.shape[0]
             cases.append({'kind': 'stabs', 'fam': fam, 'sz': sz, 'S': S, 'i': len(req)})
-            req.append('%sstabs %d %d' % (tag, sz[0], sz[1]))
+            req.append('%sstabs %s' % (tag, szs(sz)))
             for kind, syn in _syndromes(ctx, code, m, n):
                 syn = np.asarray(syn, dtype=int)
                 recs = []
@@ -107,18 +117,24 @@ def run_extra(ctx):
                         recs.append((D.__name__, 'ERR %s' % type(ex).__name__, None))
                 c = {'kind': 'sample', 'fam': fam, 'sz': sz, 'skind': kind, 'syn': syn, 'recs': recs, 'S': S, 'n': n,
                      'i': len(req)}
-                req.append('%ssample %d %d %s' % (tag, sz[0], sz[1], bitstr(syn)))
+                req.append('%ssample %s %s' % (tag, szs(sz), bitstr(syn)))
                 # the model in a shuffled iteration order of the flagged plaquettes (a few per size)
                 if kind in ('all-ones', 'dense-random', 'exhaustive') and syn.sum() >= 2 and (kind != 'exhaustive' or rng.random() < 0.1):
-                    idxs = [tuple(int(v) for v in i) for i in code.syndrome_to_plaquette_indices(syn)]
-                    rng.shuffle(idxs)
+                    sets = code.syndrome_to_plaquette_indices(syn)
+                    sets = list(sets) if fam == 'color' else [sets]     # colour: (X-stabilizer set, Z-stabilizer set)
+                    lists = []
+                    for st in sets:
+                        idxs = [tuple(int(v) for v in i) for i in st]
+                        rng.shuffle(idxs)
+                        lists.append(';'.join('%d:%d' % i for i in idxs) or '-')
                     c['i_ord'] = len(req)
-                    req.append('%ssampleord %d %d %s' % (tag, sz[0], sz[1], ';'.join('%d:%d' % i for i in idxs)))
+                    req.append('%ssampleord %s %s' % (tag, szs(sz), ' '.join(lists)))
                 cases.append(c)
 
     # ---- (5): decode of the four decoders on small sizes ----
     dec_sizes = {'planar': [(2, 2), (2, 3), (3, 2), (3, 3)] + ([] if ctx.quick else [(3, 4), (4, 4)]),
-                 'rotplanar': [(3, 3), (3, 4), (4, 3)] + ([] if ctx.quick else [(4, 4), (5, 5)])}
+                 'rotplanar': [(3, 3), (3, 4), (4, 3)] + ([] if ctx.quick else [(4, 4), (5, 5)]),
+                 'color': [(3,), (5,)] + ([] if ctx.quick else [(7,)])}
     for fam, (Code, decs, tag, _) in fams.items():
         for sz in dec_sizes[fam]:
             code = Code(*sz)
@@ -134,17 +150,17 @@ def run_extra(ctx):
                     chi = rng.choice([1, 2, 4, None])
                     mode = rng.choice('cra')
                     p = rng.choice([0.01, 0.1, 0.3])
-                    dec = D(chi, mode)
+                    dec = D(chi) if fam == 'color' else D(chi, mode)
                     try:
                         r = np.asarray(dec.decode(code, syn.copy(), error_probability=p))
                         out = 'ok'
                     except Exception as ex:  # noqa
                         r, out = None, 'ERR %s: %s' % (type(ex).__name__, str(ex)[:100])
                     samp = np.asarray(D.sample_recovery(code, syn.copy()).to_bsf())
-                    c = {'kind': 'decode', 'fam': fam, 'sz': sz, 'dec': [D.__name__, [chi, mode]], 'p': p, 'syn': syn, 'rec': r,
+                    c = {'kind': 'decode', 'fam': fam, 'sz': sz, 'dec': [D.__name__, [chi] if fam == 'color' else [chi, mode]], 'p': p, 'syn': syn, 'rec': r,
                          'outcome': out, 'S': S, 'n': n, 'cands': [bitstr(samp ^ l) for l in L], 'i': len(req)}
                     for co in COSETS:
-                        req.append('%sdecode %d %d %s %s' % (tag, sz[0], sz[1], co, bitstr(syn)))
+                        req.append('%sdecode %s %s %s' % (tag, szs(sz), co, bitstr(syn)))
                     cases.append(c)
 
     out = zoo.model_parallel(ctx, 'samp', req)
@@ -158,11 +174,11 @@ def run_extra(ctx):
             ctx.count(('samp-model-code', fam, sz), True, 'sample-recovery/code-matrix')
             continue
         syn_s = bitstr(c['syn'])
-        code_spec = ['planar' if fam == 'planar' else 'rotatedplanar', list(sz)]
+        code_spec = [CODE_NAME[fam], list(sz)]
         if c['kind'] == 'sample':
             n_sample += 1
             model = out[c['i']]
-            nontrivial = bool(c['syn'].any()) and (sz[0] != sz[1] or min(sz) <= 3)
+            nontrivial = bool(c['syn'].any()) and (len(sz) == 1 or sz[0] != sz[1] or min(sz) <= 3)
             ctx.count(('sample-recovery', fam, sz, syn_s), nontrivial, 'sample-recovery/%s/%s' % (fam, c['skind']),
                       {'code': code_spec, 'syndrome': syn_s, 'model_sample': model}
                       if (nontrivial and c['n'] <= 20 and c['skind'] in ('sparse-random', 'exhaustive') and c['syn'].sum() >= 3) else None)
@@ -187,7 +203,7 @@ def run_extra(ctx):
                     ctx.violation('sample-recovery-syndrome',
                                   '%s.sample_recovery does not reproduce the syndrome' % name, dict(rep, recovery=bitstr(r)))
             r0 = c['recs'][0][2]
-            if (len(kern) < 16 and c['n'] <= 25 and c['syn'].any() and r0 is not None and bitstr(r0) == model
+            if (sum(1 for k in kern if k[0] == fam) < 4 and c['n'] <= 25 and c['syn'].any() and r0 is not None and bitstr(r0) == model
                     and c['skind'] in ('dense-random', 'all-ones', 'sparse-random', 'exhaustive') and c['syn'].sum() >= 3):
                 kern.append((fam, sz, syn_s, model))
         else:
@@ -211,19 +227,23 @@ def run_extra(ctx):
 
     # ---- (6) in-kernel shard ----
     items = []
-    for fam, sz, syn_s, model in kern[::2]:
+    for fam, sz, syn_s, model in kern:
         sb = coq_bits([ch == '1' for ch in syn_s])
         mb = coq_bits([ch == '1' for ch in model])
         if fam == 'planar':
             items.append('(match planar_sample_recovery %d %d %s with Some p => beqv (p_to_bsf p) %s && '
                          'beqv (syndrome_of (stabs (planar_code %d %d)) (p_to_bsf p)) %s | None => false end)'
                          % (sz[0], sz[1], sb, mb, sz[0], sz[1], sb))
-        else:
+        elif fam == 'rotplanar':
             items.append('(let r := rc_to_bsf (rotplanar_sample_recovery %d %d %s) in beqv r %s && '
                          'beqv (syndrome_of (stabs (rotplanar_code %d %d)) r) %s)' % (sz[0], sz[1], sb, mb, sz[0], sz[1], sb))
+        else:
+            items.append('(match color_sample_recovery %d %s with Some p => beqv (rc_to_bsf p) %s && '
+                         'beqv (syndrome_of (stabs (color_code %d)) (rc_to_bsf p)) %s | None => false end)'
+                         % (sz[0], sb, mb, sz[0], sb))
     if items:
         text = ('From Coq Require Import List Bool ZArith NArith.\nFrom QV Require Import Core.Bits Core.Pauli Core.Symp Core.Code '
-                'Lattice.Planar Lattice.RotPlanar Decoders.SampleRecovery.\nImport ListNotations.\nOpen Scope Z_scope.\n'
+                'Lattice.Planar Lattice.RotPlanar Lattice.Color Decoders.SampleRecovery Decoders.SampleRecoveryColor.\nImport ListNotations.\nOpen Scope Z_scope.\n'
                 'Definition checks : list bool :=\n ' + coq_list(items).replace('; (', ';\n  (') + '.\n'
                 'Example corr : forallb (fun b => b) checks = true.\nProof. vm_compute. reflexivity. Qed.\n')
         ctx.kernel_cases('sample_model', text)
@@ -233,9 +253,10 @@ def run_extra(ctx):
 def replay_dict(r):
     """re-evaluate one replay dict written by run_extra (r['check'] == 'c02_sample'): 1 if the failure reproduces"""
     from qecsim import paulitools as pt
-    from qecsim.models import planar, rotatedplanar
-    mod = planar if r['code'][0] == 'planar' else rotatedplanar
-    code = (planar.PlanarCode if r['code'][0] == 'planar' else rotatedplanar.RotatedPlanarCode)(*r['code'][1])
+    from qecsim.models import planar, rotatedplanar, color
+    mod, Code = {'planar': (planar, planar.PlanarCode), 'rotatedplanar': (rotatedplanar, rotatedplanar.RotatedPlanarCode),
+                 'color666': (color, color.Color666Code)}[r['code'][0]]
+    code = Code(*r['code'][1])
     D = getattr(mod, r['decoder'][0])
     syn = np.array([int(ch) for ch in r['syndrome']] if r['syndrome'] != '-' else [], dtype=int)
     try:
